@@ -28,6 +28,7 @@ Counter p_wrapped_synopsis("probe.synopsis_wraps");
 Counter p_structural("probe.structural_clauses_checked");
 Counter f_state("fault.stream.format_state_left_over");
 Counter p_repeat("probe.usage_called_again_on_same_parser");
+Counter p_moved("probe.usage_of_a_moved_parser");
 Counter p_late("probe.usage_after_late_declaration");
 
 // ---------------------------------------------------------------- simulated stream device
@@ -684,6 +685,27 @@ struct Exec
             out.hash = 2;
             return out;
         }
+        if (plan.knob("move", 0))
+        {
+            // the text is a function of the declarations: moving the parser object changes nothing
+            no::parser* q = nullptr;
+            if (plan.knob("move", 0) == 1)
+                q = new no::parser(std::move(*p));
+            else
+            {
+                q = new no::parser("other", "about something else");
+                q->toggle("leftover", "an option of the overwritten parser");
+                *q = std::move(*p);
+            }
+            delete p;
+            p = q;
+            p_moved++;
+            std::ostringstream os;
+            p->usage(os);
+            if (os.str() != ref)
+                fail("C15/differs-after-move", plan.knob("move", 0) == 1 ? "move-constructed" : "move-assigned", -1,
+                     "usage() of the moved parser differs from the text before the move");
+        }
         {
             // a second call on the same parser (nothing may be left over from the first)
             std::ostringstream os;
@@ -941,6 +963,7 @@ public:
     Plan generate(Rng& rng, const Config&, int) override
     {
         Plan p;
+        p.knobs.emplace_back("move", rng.chance(1, 3) ? static_cast<int64_t>(rng.range(1, 2)) : 0);
         {
             Op op;
             op.kind = K_APP;
@@ -954,7 +977,8 @@ public:
             Op op;
             op.kind = K_GROUP;
             op.a[0] = g;
-            op.s = "grp" + std::to_string(g) + word(rng, 10) + "|" + (rng.chance(1, 2) ? text(rng, 10, 20) : std::string());
+            // (names are unique by their index and in no particular alphabetical order)
+            op.s = word(rng, 3) + "grp" + std::to_string(g) + word(rng, 10) + "|" + (rng.chance(1, 2) ? text(rng, 10, 20) : std::string());
             p.ops.push_back(op);
         }
         int nopts = rng.range(0, 8);
